@@ -428,7 +428,7 @@ func checkURI(rep *Report, w *CaseW, s []byte) uriRes {
 		case sipsp.TELuri:
 			if r.U.Host.Len != 0 {
 				bad = "tel: URI with a host"
-			} else if !bytes.ContainsAny(s, "@") {
+			} else if !bytes.ContainsAny(s, "@[]") { // '@' / brackets are outside the tel grammar: not claimed
 				// the number is everything between the scheme and the first ; ? :
 				// (the byte right after the scheme always belongs to the number)
 				rest := s[4:]
